@@ -126,27 +126,59 @@ def observe(m, points):
     return out
 
 
-def run_model(case):
+def _compile(case, combo):
+    """transfer_model of one model under one flag triple: ("ok", Model) or ("exc", {...})"""
     from pymoca.backends.casadi.api import transfer_model
+    d = tempfile.mkdtemp(prefix="c12_")
+    try:
+        with open(os.path.join(d, case["name"] + ".mo"), "w") as f:
+            f.write(case["text"])
+        opts = dict(case.get("fixed", {}))
+        opts.update(dict(zip(FLAGS, [bool(x) for x in combo])))
+        try:
+            return "ok", transfer_model(d, case["name"], opts)
+        except Exception as e:  # noqa - the class is the observation
+            return "exc", {"ok": False, "exc": type(e).__name__, "msg": str(e)[:300]}
+    finally:
+        shutil.rmtree(d, ignore_errors=True)
+
+
+def _observe(m, points):
+    try:
+        return observe(m, points)
+    except Exception as e:  # noqa
+        return {"ok": False, "exc": type(e).__name__, "msg": "while observing: " + str(e)[:280]}
+
+
+def run_model(case):
+    """compile one combination, observe it, next combination"""
     res = []
     for combo in case["combos"]:
-        d = tempfile.mkdtemp(prefix="c12_")
-        try:
-            with open(os.path.join(d, case["name"] + ".mo"), "w") as f:
-                f.write(case["text"])
-            opts = dict(case.get("fixed", {}))
-            opts.update(dict(zip(FLAGS, [bool(x) for x in combo])))
-            try:
-                m = transfer_model(d, case["name"], opts)
-                res.append(observe(m, case["points"]))
-            except Exception as e:  # noqa - the class is the observation
-                res.append({"ok": False, "exc": type(e).__name__, "msg": str(e)[:300]})
-        finally:
-            shutil.rmtree(d, ignore_errors=True)
+        kind, m = _compile(case, combo)
+        res.append(_observe(m, case["points"]) if kind == "ok" else m)
     return {"combos": res}
 
 
+def run_group(case):
+    """INTERLEAVED: compile every (model, combination) of 2-3 different models first, keep all Model objects
+    alive, then observe (build and evaluate the four functions) in the given shuffled order"""
+    built = {}
+    for mi, c in enumerate(case["models"]):
+        for ci, combo in enumerate(c["combos"]):
+            built[(mi, ci)] = _compile(c, combo)
+    res = [[None] * len(c["combos"]) for c in case["models"]]
+    order = [tuple(x) for x in case.get("order") or sorted(built)]
+    for mi, ci in order + [k for k in sorted(built) if k not in order]:
+        if res[mi][ci] is not None:
+            continue
+        kind, m = built[(mi, ci)]
+        res[mi][ci] = _observe(m, case["models"][mi]["points"]) if kind == "ok" else m
+    return {"models": [{"combos": r} for r in res]}
+
+
 def handler(case):
+    if case.get("kind") == "group":
+        return run_group(case)
     return run_model(case)
 
 
